@@ -1523,7 +1523,16 @@ impl PeerConnection {
 
         if previous_remote.is_some() && !media_parameters_changed {
             if let Some(next) = next_state {
-                let _ = self.inner.signaling_state.send(next);
+                // Closed is final: a close() that ran while the description was being
+                // applied must not be overwritten by the deferred transition.
+                self.inner.signaling_state.send_if_modified(|state| {
+                    if *state == SignalingState::Closed {
+                        false
+                    } else {
+                        *state = next;
+                        true
+                    }
+                });
             }
             *self.inner.remote_description.lock() = Some(desc);
             debug!(
@@ -2021,7 +2030,16 @@ impl PeerConnection {
         self.update_rtcp_mux_from_remote();
 
         if let Some(next) = next_state {
-            let _ = self.inner.signaling_state.send(next);
+            // Closed is final: a close() that ran while the description was being
+            // applied must not be overwritten by the deferred transition.
+            self.inner.signaling_state.send_if_modified(|state| {
+                if *state == SignalingState::Closed {
+                    false
+                } else {
+                    *state = next;
+                    true
+                }
+            });
         }
         Ok(())
     }
